@@ -125,6 +125,10 @@ def judge(mn, shape, suffix, value, src, out, viol):
     sid = shape_id(shape)
     if mn in isa.BRANCHES:
         # displacement semantics belong to C05; here: never another instruction, never another length
+        if out.accepted and suffix in (".w", ".l"):
+            # the only operand of a relative branch is one displacement byte: a 2- or 3-byte form is not a 65c816 instruction
+            viol.append({"key": f"isa:undefined-accepted:{mn}{suffix} (no such branch width)", "msg": f"`{src}` -> {out.brief()}"})
+            return 1, "BRANCH-WIDTH-ACCEPTED"
         if out.accepted:
             data = b"".join(b for _, b in out.blocks)
             if shape != ("", "", "") or len(data) != 2 or data[0] != isa.BY_MNEMONIC[mn]["rel"]:
